@@ -179,9 +179,33 @@ func c17hExec(t *testing.T, out *verifh.Out, sc *c17hScript) []int64 {
 			c.closed.Store(true)
 			nw.nf.Disconnected(nw, c)
 		}
-		host.Update()
-		m0, m1 := om.AddrsFor(c17hMain), om.Addrs(1)
-		direct, addrs, hole := host.Direct(), host.Addrs(), host.HolePunch()
+		// read the manager's answers before and after the host update and the
+		// views; retry until they agree, so that the views are compared with an
+		// answer that did not move underneath them
+		var m0, m1, direct, addrs, hole []ma.Multiaddr
+		same := func(a, b []ma.Multiaddr) bool {
+			if len(a) != len(b) {
+				return false
+			}
+			for i := range a {
+				if !a[i].Equal(b[i]) {
+					return false
+				}
+			}
+			return true
+		}
+		for try := 0; ; try++ {
+			m0, m1 = om.AddrsFor(c17hMain), om.Addrs(1)
+			host.Update()
+			direct, addrs, hole = host.Direct(), host.Addrs(), host.HolePunch()
+			if same(m0, om.AddrsFor(c17hMain)) && same(m1, om.Addrs(1)) {
+				break
+			}
+			if try > 1000 {
+				t.Fatal("c17 host: the observed address manager's answers do not settle")
+			}
+			time.Sleep(50 * time.Microsecond)
+		}
 		for i, x := range c17hX {
 			inM0, inD, inA, inH := c17hHas(m0, x), c17hHas(direct, x), c17hHas(addrs, x), c17hHas(hole, x)
 			line = append(line, b2i(inM0), b2i(c17hHas(m1, x)), b2i(inD), b2i(inA), b2i(inH))
